@@ -78,7 +78,15 @@ func ruleC19ListedFirst(c *Ctx) {
 	var processed ssa.Value
 	core.EachInstr(em, func(i ssa.Instruction) {
 		if mu, ok := i.(*ssa.MapUpdate); ok && core.Dominates(first, mu) && mu.Block().Dominates(mu.Block()) {
-			if k, ok := mu.Value.(*ssa.Const); ok && k.Value != nil && k.Value.String() == "true" && sharesSource(mu.Key, first.Call.Args[0]) {
+			// a set: map[string]bool with true, or map[string]struct{}
+			isMember := false
+			if k, ok := mu.Value.(*ssa.Const); ok && k.Value != nil && k.Value.String() == "true" {
+				isMember = true
+			}
+			if st, ok := mu.Value.Type().Underlying().(*types.Struct); ok && st.NumFields() == 0 {
+				isMember = true
+			}
+			if isMember && sharesSource(mu.Key, first.Call.Args[0]) {
 				processed = mu.Map
 			}
 		}
@@ -114,6 +122,11 @@ func ruleC19ListedFirst(c *Ctx) {
 		for _, g := range guardsOf(call) {
 			if lk, ok := g.Cond.(*ssa.Lookup); ok && !g.Pol && processed != nil && sharesSource(lk.X, processed) {
 				collected = true
+			}
+			if ex, ok := g.Cond.(*ssa.Extract); ok && !g.Pol && ex.Index == 1 && processed != nil {
+				if lk, ok := ex.Tuple.(*ssa.Lookup); ok && sharesSource(lk.X, processed) {
+					collected = true
+				}
 			}
 		}
 	})
